@@ -436,6 +436,70 @@ SAFE_EDITS: List[Callable[[Dict[str, Any], random.Random], str]] = [
 ]
 
 
+ODD_DOCS = [
+    'Quotes "double" and \'single\' and `backticks`.',
+    "Back\\slash \\n literal and a real\nnewline\n\n    indented code block",
+    "C-style */ terminator and /* opener, XML <tag attr='1'> &amp; entity",
+    'Triple """ quotes and \'\'\' too',
+    "Unicode: é ü 漢字 𐐀 \u2028line-sep \u2029para-sep \u00a0nbsp \ttab",
+    "@since 9.9.9\n@proposed\n@deprecated use something else",
+    "trailing whitespace   \n   leading whitespace",
+    "x" * 300,
+    "",
+]
+
+
+def modify_existing(doc: Dict[str, Any], rnd: random.Random) -> str:
+    """Change something that is already there (the other edits only add): documentation with awkward
+    characters, annotations on existing nodes, optionality, enum values."""
+    kind = rnd.choice(["struct_doc", "prop_doc", "prop_optional", "prop_annot", "enum_value_doc", "enum_annot", "message_annot", "alias_annot"])
+    if kind in ("struct_doc", "prop_doc", "prop_optional", "prop_annot") and doc["structures"]:
+        s_ = rnd.choice(doc["structures"])
+        if kind == "struct_doc":
+            s_["documentation"] = rnd.choice(ODD_DOCS)
+        elif s_["properties"]:
+            p_ = rnd.choice(s_["properties"])
+            if kind == "prop_doc":
+                p_["documentation"] = rnd.choice(ODD_DOCS)
+            elif kind == "prop_optional":
+                p_["optional"] = not p_.get("optional", False)
+            else:
+                p_[rnd.choice(["deprecated", "since"])] = rnd.choice(["3.18.0", "Use `other` instead.", ""])
+                if rnd.random() < 0.5:
+                    p_["proposed"] = True
+        return f"modify:{kind}:{s_['name']}"
+    if kind in ("enum_value_doc", "enum_annot") and doc["enumerations"]:
+        e_ = rnd.choice(doc["enumerations"])
+        if kind == "enum_annot":
+            e_[rnd.choice(["deprecated", "since", "documentation"])] = rnd.choice(ODD_DOCS[:6])
+            if rnd.random() < 0.4:
+                e_["proposed"] = True
+        elif e_["values"]:
+            v_ = rnd.choice(e_["values"])
+            v_["documentation"] = rnd.choice(ODD_DOCS)
+            if rnd.random() < 0.4:
+                v_["proposed"] = True
+            if rnd.random() < 0.3:
+                v_["deprecated"] = "old value"
+        return f"modify:{kind}:{e_['name']}"
+    if kind == "message_annot":
+        sec = rnd.choice(["requests", "notifications"])
+        if doc[sec]:
+            m_ = rnd.choice(doc[sec])
+            m_[rnd.choice(["documentation", "deprecated", "since"])] = rnd.choice(ODD_DOCS[:7])
+            if rnd.random() < 0.4:
+                m_["proposed"] = True
+            return f"modify:{kind}:{m_['method']}"
+    if doc["typeAliases"]:
+        a_ = rnd.choice(doc["typeAliases"])
+        a_[rnd.choice(["documentation", "deprecated", "since"])] = rnd.choice(ODD_DOCS[:7])
+        return f"modify:alias_annot:{a_['name']}"
+    return "modify:none"
+
+
+SAFE_EDITS += [modify_existing, modify_existing, modify_existing]
+
+
 def add_and_message(doc: Dict[str, Any], rnd: random.Random) -> str:
     """Intersection types in message positions.  Only the testdata plugin accepts `and` types on the
     pinned tree (python/rust/dotnet raise), so this edit is offered to testdata histories only."""
@@ -501,6 +565,9 @@ def merge_reference(parts: List[Dict[str, Any]]) -> Dict[str, Any]:
 
 def dumps(doc: Any, rnd: Optional[random.Random] = None) -> bytes:
     """Serialise a document the way the repo stores it (indent=4) or, seeded, compactly."""
-    if rnd is not None and rnd.random() < 0.5:
-        return json.dumps(doc, ensure_ascii=False, separators=(",", ":")).encode("utf-8")
-    return (json.dumps(doc, indent=4, ensure_ascii=False) + "\n").encode("utf-8")
+    try:
+        if rnd is not None and rnd.random() < 0.5:
+            return json.dumps(doc, ensure_ascii=False, separators=(",", ":")).encode("utf-8")
+        return (json.dumps(doc, indent=4, ensure_ascii=False) + "\n").encode("utf-8")
+    except UnicodeEncodeError:  # lone surrogates can only travel as \uXXXX escapes
+        return (json.dumps(doc, indent=4, ensure_ascii=True) + "\n").encode("ascii")
